@@ -297,3 +297,18 @@ def register(kernel):
            model="p_gamma ROps r plus v vp", model_name="Rbm.p_gamma (vector form and batched form)",
            tactic="intros r v vp plus expand dim1 Hv Hp; cbv [GEN p_gamma p_vis_term half two]; tie_vec_norm; "
                   "rewrite ?(dot_vadd_scale _ (pb r) v vp Hv Hp); destruct dim1, plus; lra")
+
+    # ------------------------------------------------------------------ C03: per-sample energy gradients (reduce=False form)
+    outer = ("torch.einsum('...j,...k->...jk', $p, $v)", "(outerb ROps $p $v)", "V")
+    kernel("C03", name="binary_energy_gradient_per_sample", func="BinaryRBM.effective_energy_gradient", inputs=[("v", "v", "BV")],
+           assume={"reduce": ("false", B)}, hole_types={"p": "V", "v": "BV"},
+           atoms=[("self.prob_h_given_v($v)", "(b_prob_h_given_v ROps r $v)", "V"), outer],
+           coq_params=bparams, result="V", thm_params=bparams, gen_args="r v", model="b_energy_grad ROps r v",
+           model_name="Rbm.b_energy_grad (reduce=False: [W block row major; visible bias; hidden bias])",
+           tactic="intros; cbv [GEN b_energy_grad]; cbn [concat]; rewrite ?app_nil_r, ?app_assoc; reflexivity", **bfile)
+    kernel("C03", name="purification_energy_gradient_per_sample", func="PurificationRBM.effective_energy_gradient", inputs=[("v", "v", "BV")],
+           assume={"reduce": ("false", B)}, hole_types={"p": "V", "v": "BV"},
+           atoms=[("self.prob_h_given_v($v)", "(p_prob_h_given_v ROps r $v)", "V"), ("self.prob_a_given_v($v)", "(p_prob_a_given_v ROps r $v)", "V"), outer],
+           coq_params=pparams, result="V", thm_params=pparams, gen_args="r v", model="p_energy_grad ROps r v",
+           model_name="Rbm.p_energy_grad (reduce=False: [W; U; visible bias; hidden bias; aux bias])",
+           tactic="intros; cbv [GEN p_energy_grad]; cbn [concat]; rewrite ?app_nil_r, ?app_assoc; reflexivity", **pfile)
